@@ -123,7 +123,11 @@ impl Out {
         self.bump("oracle_only_cases");
     }
     pub fn fail(&mut self, kind: &str, class: Option<&str>, desc: Value) {
-        if self.failures.len() < 200 {
+        // failures of a known class (a recorded finding) never crowd out the others: they are kept up to 40 per class, and
+        // failures without a class up to 200
+        let key = class.unwrap_or("").to_string();
+        let seen = self.failures.iter().filter(|f| f["class"].as_str().unwrap_or("") == key).count();
+        if seen < if class.is_some() { 40 } else { 200 } {
             self.failures.push(json!({"kind": kind, "class": class, "case": desc}));
         }
         self.bump(&format!("fail:{}", kind));
